@@ -76,3 +76,17 @@ CHECKS["C15"] = {
     ],
     "deadline": {"quick": 150, "thorough": 1200},
 }
+
+CHECKS["C18"] = {
+    "level": "exploration",
+    "assumptions": ["derivations recomputed with the reference models (sm2ref, sm4ref algebraic S-box, sm3ref)",
+                    "GF2P8AFFINEQB/GF2P8AFFINEINVQB semantics taken from the Intel SDM and emulated in Go",
+                    "lane-merge index vectors are checked only on the positions their write masks consume"],
+    "parts": [
+        {"name": "sm2-tables", "pkg": "sm2/internal", "run": "TestVX_C18_SM2Tables", "kind": "internal",
+         "files": [SM2I + "common_int_test.go", SM2I + "C18_int_test.go"], "shards": 8},
+        {"name": "sm4-go-tables", "pkg": "sm4", "run": "TestVX_C18_SM4Go", "kind": "internal", "files": ["sm4/C18_int_test.go"]},
+        {"name": "asm-data", "pkg": "sm4", "run": "TestVX_C18_Asm", "public_files": ["sm4/C18_pub_test.go"]},
+        {"name": "sm3-tt", "pkg": "sm3", "run": "TestVX_C18_SM3", "kind": "internal", "files": ["sm3/C18_int_test.go"]},
+    ],
+}
